@@ -1,4 +1,5 @@
 import QmiModel.Model.Pipeline
+import QmiModel.Gen.RpcShape
 /-!
 # C03 — calls on one object run one at a time, in the order they were issued
 
@@ -582,6 +583,13 @@ theorem one_at_a_time {T : Topo} {s : State} (as : List Act) (h : run T init as 
   have h0 : busy init o = 0 := by simp [busy, init]
   have := busy_le_one s1 o
   omega
+
+/-- **The code has the shape the model takes for granted** (obligation on the term generated from the current source
+by `harness/tr_rpcshape.py`): one guarded creation + start of one `_RpcThread` per manager, no other thread started in
+`rpc.py`, the request handlers called only from the worker loop, one `popleft` under `_cv` per iteration followed by
+the handling in the same iteration, the fifo only appended to and popped from the left, `push_rpc_request` only from
+`handle_message` under `_stop_lock`.  See `Model/RpcShape.lean` for the list. -/
+theorem code_shape_single_worker : QmiModel.Gen.RpcShape.gen.ok = true := by decide
 
 /-! ### only the worker executes -/
 
